@@ -255,7 +255,7 @@ pub static PROFILE: Profile = Profile {
     raw,
     build,
     check,
-    budget: Budget { r_cases: (2000, 30000), s_cases: (1000, 8000), s_scheds: (16, 64) },
+    budget: Budget { r_cases: (4000, 30000), s_cases: (2000, 8000), s_scheds: (16, 64) },
     liveness: true,
     enumerate: None,
     extra: None,
